@@ -20,7 +20,8 @@ import sys
 
 from harness import framework, tlc, c18
 
-KNOWN = dict((k, "C18:graph:" + k) for k in ("SplitSelfLoop", "HistCopySlice", "EmptyOldEdge", "AnonSplitEdge", "CutPathSwallow"))
+KNOWN = dict((k, "C18:graph:" + k) for k in ("SplitSelfLoop", "HistCopySlice", "EmptyOldEdge", "AnonSplitEdge", "CutPathSwallow",
+                                             "FirstBlockSwallow"))
 
 
 def validate(ctx, traces, tag, kind):
@@ -36,8 +37,12 @@ def validate(ctx, traces, tag, kind):
         jobs.append((p, "c18v%s%d" % (tag, i)))
 
     def one(a):
-        return tlc.run("CfgTrace", "CfgTrace.cfg", workers=1, env={"TRACE_FILE": a[0]}, tag=a[1], timeout=3000,
-                       xmx="2g")
+        try:
+            return tlc.run("CfgTrace", "CfgTrace.cfg", workers=1, env={"TRACE_FILE": a[0]}, tag=a[1], timeout=3000, xmx="2g")
+        except tlc.MachineryError as ex:      # one retry: a JVM that could not start on a saturated machine
+            ctx.count("validation_shards_retried")
+            ctx.note("validation_retry_reason", str(ex)[-400:])
+            return tlc.run("CfgTrace", "CfgTrace.cfg", workers=1, env={"TRACE_FILE": a[0]}, tag=a[1] + "r", timeout=3000, xmx="2g")
 
     with mp.pool.ThreadPool(len(jobs)) as tp:
         results = tp.map(one, jobs)
@@ -126,11 +131,13 @@ def generators(quick):
         return [("CfgGen_unit_quick.cfg", "unit", c18.G_DELAY + c18.G_FIXED + c18.G_VAR[:2], "one", None, 1),
                 ("CfgGen_var_quick.cfg", "var", c18.G_VAR, "one", None, 1),
                 ("CfgGen_links_quick.cfg", "links", allh, "one", None, 1),
+                ("CfgGen_wide_quick.cfg", "wide", c18.G_VAR[:3] + c18.G_FIXED[:2], "one", None, 1),
                 ("CfgSim.cfg", "sim", c18.G_VAR, "one", "num=60", 1),
                 ("CfgSimD.cfg", "simd", c18.G_DELAY, "one", "num=60", 1)]
     return [("CfgGen_unit.cfg", "unit", c18.G_DELAY + c18.G_FIXED + c18.G_VAR[:2], "all", None, 1),
             ("CfgGen_var.cfg", "var", c18.G_VAR, "all", None, 1),
             ("CfgGen_links.cfg", "links", allh, "one", None, 1),
+            ("CfgGen_wide.cfg", "wide", c18.G_VAR[:3] + c18.G_FIXED[:2], "one", None, 1),
             ("CfgSim.cfg", "sim", c18.G_VAR, "one", "num=1500", 1),
             ("CfgSimD.cfg", "simd", c18.G_DELAY, "one", "num=1500", 1)]
 
@@ -152,7 +159,37 @@ def history_jobs(ctx, quick):
     return jobs
 
 
+def run_replay(ctx):
+    """./check C18 --replay PATH: re-execute the recorded case on the current tree and validate it again"""
+    import random
+    c18.quiet()
+    with open(ctx.replay) as f:
+        t = json.load(f)["case"]["trace"]
+    if t["kind"] == "graph":
+        steps = []
+        for s in t["steps"]:
+            if s["op"] == "add":
+                steps.append(("add", s["bd"][0]) if t["dom"] else ("addrun", s["bd"][0], len(s["bd"]) - 1))
+            elif s["op"] == "link":
+                steps.append(("link", s["x"], s["y"]))
+            else:
+                steps.append(("readd", s["n"]))
+        new = c18.run_history(1, t["isa"], c18.cpu_of(t["isa"]), bytes(t["buf"]), steps, t["dom"] == 1, meta=t.get("meta"))
+    else:
+        new = c18.sweep_trace(1, t["isa"], t.get("src", "replay"), bytes(t["buf"]), t["start"], random.Random(t.get("rs", "replay")))
+    if new["kind"] == "aborted":
+        raise tlc.MachineryError("replayed case aborted in the decoder: %s" % new["sig"])
+    new["source"] = "replay"
+    verdicts = validate(ctx, [new], "replay", "V:CfgTrace")
+    judge(ctx, [new], verdicts)
+    ctx.case(key=("replay", t["isa"]))
+    ctx.sample({"source": "replay of " + ctx.replay, "trace": dict((k, new[k]) for k in new if k != "buf")})
+    ctx.rule = "one recorded case re-executed on the current tree and re-validated by specs/CfgTrace.tla"
+
+
 def run(ctx):
+    if ctx.replay:
+        return run_replay(ctx)
     quick = ctx.tier == "quick"
     ctx.rule = ("cases are (a) TLC behaviours of specs/Cfg.tla (stream, order of block insertions, links, re-insertions) "
                 "replayed on a real cfg.graph, distinct = distinct (byte lengths, flags, add_vertex branch sequence); (b) linear "
@@ -225,7 +262,7 @@ def run(ctx):
             br = ctx.extra.setdefault("add_vertex_branches_replayed", {})
             br[b] = br.get(b, 0) + c
         for t in o["traces"]:
-            t["source"] = "G:" + tag
+            t["source"] = ("G:" if t["dom"] else "Gdrift:") + tag
             traces.append(t)
     for cfg, tag, hosts, which, sim, stride in gens:
         if nb.get(tag, 0) == 0:
@@ -258,6 +295,8 @@ def run(ctx):
                 traces.append(t)
     # --- validation: one TLC pass over everything ----------------------------------------------------------
     ctx.rng.shuffle(traces)
+    for i, t in enumerate(traces):
+        t["t"] = i + 1          # one id space for the verdicts
     verdicts = validate(ctx, traces, "all", "V:CfgTrace")
     judge(ctx, traces, verdicts)
     account(ctx, traces)
